@@ -8,13 +8,13 @@ pub struct VArray {
 
 pub struct SubscriptOutOfRangeError;
 
-/// The array has more elements than can be counted.
+/// The array has more elements than can be counted, or than fit in memory.
 pub struct OutOfMemoryError;
 
 impl VArray {
     /// Creates an array with every element set to the given value.
     ///
-    /// Panics if the array has more elements than can be counted;
+    /// Panics if the array has more elements than can be counted or than fit in memory;
     /// `try_new` reports that as an error.
     pub fn new(dimensions: Vec<(i32, i32)>, default_variant: Variant) -> Self {
         match Self::try_new(dimensions, default_variant) {
@@ -30,7 +30,13 @@ impl VArray {
     ) -> Result<Self, OutOfMemoryError> {
         let len = dimensions_to_array_length(&dimensions).ok_or(OutOfMemoryError)?;
         debug_assert!(len > 0);
-        let elements: Vec<Variant> = (0..len).map(|_| default_variant.clone()).collect();
+        // reserve the memory first: if it is not available that is an error
+        // of the program, a failed allocation while collecting would abort the process
+        let mut elements: Vec<Variant> = Vec::new();
+        elements
+            .try_reserve_exact(len)
+            .map_err(|_| OutOfMemoryError)?;
+        elements.resize(len, default_variant);
         Ok(Self {
             dimensions,
             elements,
